@@ -37,16 +37,18 @@ func (c Call) String() string {
 
 // Scenario fixes everything but the schedule.
 type Scenario struct {
-	N       int        `json:"n"`
-	Hist    []Call     `json:"hist"`
-	Scripts [][]string `json:"scripts"` // per task, result of each attempt: ok | err | skip (last repeats)
-	Mode    string     `json:"mode"`    // par | max1 | max2 | max3 | serial
-	Cancel  bool       `json:"cancel,omitempty"`
-	Buffer  bool       `json:"buffer,omitempty"`
-	Shared  []int      `json:"shared,omitempty"`  // second graph run concurrently, made of these (shared) tasks, no edges
-	Rerun   bool       `json:"rerun,omitempty"`   // call Run a second time on the same graph
-	History bool       `json:"history,omitempty"` // construction-history scenario (C16a): edges are whatever the history declares
-	Canon   bool       `json:"canon,omitempty"`   // the graph is the representative of its isomorphism class
+	N          int        `json:"n"`
+	Hist       []Call     `json:"hist"`
+	Scripts    [][]string `json:"scripts"` // per task, result of each attempt: ok | err | skip (last repeats)
+	Mode       string     `json:"mode"`    // par | max1 | max2 | max3 | serial
+	Cancel     bool       `json:"cancel,omitempty"`
+	Buffer     bool       `json:"buffer,omitempty"`
+	Shared     []int      `json:"shared,omitempty"`      // second graph run concurrently, made of these (shared) tasks, no edges
+	SharedMode string     `json:"shared_mode,omitempty"` // mode of the second graph (par | serial)
+	Rerun      bool       `json:"rerun,omitempty"`       // call Run a second time on the same graph
+	History    bool       `json:"history,omitempty"`     // construction-history scenario (C16a): edges are whatever the history declares
+	Canon      bool       `json:"canon,omitempty"`       // the graph is the representative of its isomorphism class
+	Light      int        `json:"light,omitempty"`       // larger graph: 1 = explored with at most one deviation in total, 2 = default schedule and all completion orders only
 }
 
 func tid(i int) string { return string(rune('a' + i)) }
@@ -64,7 +66,7 @@ func (sc *Scenario) String() string {
 		s += " buffer"
 	}
 	if len(sc.Shared) > 0 {
-		s += fmt.Sprintf(" shared=%v", sc.Shared)
+		s += fmt.Sprintf(" shared=%v/%s", sc.Shared, sc.SharedMode)
 	}
 	if sc.Rerun {
 		s += " rerun"
@@ -217,6 +219,7 @@ type Counters struct {
 	Flushes        int64
 	SharedEnters   int64
 	ReadyWhileRun  int64 // quiescent states in which a task was running and none was ready (bound respected)
+	Leaks          int64 // executions that ended with a library goroutine parked forever after Run had returned
 }
 
 func (c *Counters) Add(o *Counters) {
@@ -229,6 +232,7 @@ func (c *Counters) Add(o *Counters) {
 	c.Flushes += o.Flushes
 	c.SharedEnters += o.SharedEnters
 	c.ReadyWhileRun += o.ReadyWhileRun
+	c.Leaks += o.Leaks
 }
 
 type attemptRec struct {
@@ -558,6 +562,9 @@ func (r *run) main() {
 	})
 	if len(sc.Shared) > 0 {
 		g2 := dag.NewGraph("g2")
+		if sc.SharedMode == "serial" {
+			g2.SetSerial()
+		}
 		for _, t := range sc.Shared {
 			g2.AddTask(r.tasks[t])
 		}
@@ -625,14 +632,21 @@ func (r *run) final(res *verifrt.Result) {
 	sc := r.sc
 	m := r.m
 	if res.Status != verifrt.StatusOK {
-		switch res.Status {
-		case verifrt.StatusPanic:
+		allReturned := r.returned[0] && (r.nGraphs == 1 || r.returned[1])
+		switch {
+		case res.Status == verifrt.StatusPanic:
 			r.fail("*", "panic: %s", res.Detail)
-		case verifrt.StatusDiverged:
+			return
+		case res.Status == verifrt.StatusDiverged:
+			return
+		case (res.Status == verifrt.StatusDeadlock || res.Status == verifrt.StatusLivelock) && allReturned:
+			// Run returned; what is left over is a goroutine of the library parked forever on its
+			// completion channel (a leak, which no listed property speaks about).  Judge the run normally.
+			r.cnt.Leaks++
 		default:
 			r.fail("C16", "Run does not finish (%s): %s", res.Status, res.Detail)
+			return
 		}
-		return
 	}
 	err := r.runErr[0]
 	var errs *dag.Errors
